@@ -316,6 +316,123 @@ fn answer_pre_in(p: &Preprocessor, ctx: &mut PreprocessorContext, out: &mut Prep
     format!("{:?} code={:?} data={:?} labels={:?} fns={:?} undefined={:?} map={:?}", r, out.code, out.data, labels, fns, und, sm)
 }
 
+/// the answer from objects that were just created and never reset (clear() is not called at all: a reset that also
+/// resets something shared would hide what the objects' creation leaves alone)
+fn answer_pre_new_objects(p: &Preprocessor, text: &str) -> String {
+    let mut ctx = PreprocessorContext::default();
+    let mut out = PreprocessorOutput::default();
+    let r = catch(|| p.parse(&mut ctx, &mut out, text).map_err(|e| format!("{}", e)));
+    let mut labels: Vec<(String, usize)> = ctx.label_map.iter().map(|(k, v)| (k.clone(), v.map)).collect();
+    labels.sort();
+    let mut fns: Vec<(String, usize)> = ctx.fn_map.iter().map(|(k, v)| (k.clone(), *v)).collect();
+    fns.sort();
+    let mut und: Vec<(usize, String)> = ctx.undefined_labels.iter().map(|(a, b)| (*a, b.clone())).collect();
+    und.sort();
+    let mut sm: Vec<(usize, usize)> = std::mem::take(&mut ctx.mapper).get_source_map().into_iter().collect();
+    sm.sort();
+    format!("{:?} code={:?} data={:?} labels={:?} fns={:?} undefined={:?} map={:?}", r, out.code, out.data, labels, fns, und, sm)
+}
+
+/// what `vcheck child-answer <file>` prints: the Preprocessor's answer from fresh objects in a fresh process
+pub fn answer_for_child(text: &str) -> String {
+    crate::emu::install_quiet_panic_hook();
+    let p = Preprocessor::new();
+    answer_pre_new_objects(&p, text)
+}
+
+/// a long history, all of it with objects that are created, used once and dropped (nothing is ever reset): thousands
+/// of macro uses, labels, procedures, data definitions and instructions
+fn long_history() -> Result<(), String> {
+    {
+        let mut big: Vec<String> = Vec::new();
+        let mut t = String::from("macro m(a) -> inc a <-\nmacro w(a,b) -> m(a) m(b) <-\nstart:\n");
+        for k in 0..1500 {
+            t.push_str(if k % 3 == 0 { "w(ax,bx)\n" } else { "m(cx)\n" });
+        }
+        big.push(t);
+        let mut t = String::new();
+        for k in 0..1500 {
+            t.push_str(&format!("d{}: db {}\nw{}: dw [3]\n", k, k % 256, k));
+        }
+        t.push_str("start:\n");
+        for k in 0..1500 {
+            t.push_str(&format!("l{}: mov ax, word w{}\njmp l{}\n", k, k, (k + 1) % 1500));
+        }
+        big.push(t);
+        let mut t = String::new();
+        for k in 0..800 {
+            t.push_str(&format!("def p{} {{ inc ax }}\n", k));
+        }
+        t.push_str("start:\n");
+        for k in 0..800 {
+            t.push_str(&format!("call p{}\n", k));
+        }
+        big.push(t);
+        for round in 0..2 {
+            for t in &big {
+                let p = Preprocessor::new();
+                let a = answer_pre_new_objects(&p, t);
+                if round == 0 && !a.starts_with("Ok") {
+                    return Err(format!("fresh-process part: a history program is rejected: {:.160}", a));
+                }
+            }
+        }
+    }
+    Ok(())
+}
+
+/// (answer here, answer of a fresh process) for one probe text
+fn here_and_fresh_process(probe: &str, k: usize) -> Result<(String, String), String> {
+    let exe = std::env::current_exe().map_err(|e| e.to_string())?;
+    let path = format!("/verif/.build/tmp/c19-probe-{}-{}.s", std::process::id(), k);
+    std::fs::write(&path, probe).map_err(|e| e.to_string())?;
+    let here = {
+        let p = Preprocessor::new();
+        answer_pre_new_objects(&p, probe)
+    };
+    let out = std::process::Command::new(&exe).arg("child-answer").arg(&path).output();
+    let _ = std::fs::remove_file(&path);
+    match out {
+        Ok(o) if o.status.success() => Ok((here, String::from_utf8_lossy(&o.stdout).to_string())),
+        _ => Err("the child could not be run".into()),
+    }
+}
+
+/// After everything else this process has done (thousands of texts through every parser type, on many threads), a
+/// fresh Preprocessor with a fresh context must still answer like one in a process that has done nothing: state kept
+/// per process (a static counter, a global cache) shows here and nowhere else
+fn fresh_process_part(ctx: &Ctx) {
+    let raws = crate::pt::generate(ctx.sub_seed("c19-fresh-process", 0), 10, &crate::c13::raw_s());
+    let mut probes: Vec<String> = raws.iter().map(|r| crate::c13::render(&crate::c13::build(r)).text).collect();
+    probes.push(crate::c13::chain_program(40, false));
+    probes.push("macro m(a) -> inc a <-\nstart: m(ax)\nm(bx)\nm(cx)\n".to_string());
+    let _ = std::fs::create_dir_all("/verif/.build/tmp");
+    if let Err(e) = long_history() {
+        ctx.harness_error(&e);
+        return;
+    }
+    for (k, probe) in probes.iter().enumerate() {
+        ctx.add_evals(1);
+        let (here, there) = match here_and_fresh_process(probe, k) {
+            Ok(x) => x,
+            Err(e) => {
+                ctx.inconclusive(&format!("fresh-process probe: {}", e));
+                continue;
+            }
+        };
+        if here != there {
+            ctx.fail(Failure {
+                key: "c19|process-state|preprocessor".into(),
+                what: format!("a fresh Preprocessor and context in this process (which has parsed thousands of other texts, the last ones with about 7000 macro uses, 3000 labels, 3000 data definitions and 1600 procedures) answers differently from a fresh process: here {:.200} / fresh process {:.200}", here, there),
+                replay: json!({"kind":"c19-fresh-process","probe":probe}),
+            });
+            return;
+        }
+        ctx.add_nontrivial(1);
+        ctx.class("c19/fresh-process-agrees", 1);
+    }
+}
+
 pub fn eval_hist(c: &HistCase) -> CaseOutcome {
     let replay = json!({"kind":"c19-hist","history":c.history,"probe":c.probe,"regs":c.regs});
     let probe_lines = lines_of(&c.probe);
@@ -641,6 +758,7 @@ pub fn run(ctx: &Ctx) {
         threads_round(ctx, r);
     }
     ctx.note(&format!("thread rounds finished after {:.1}s", ctx.start.elapsed().as_secs_f64()));
+    fresh_process_part(ctx);
     let workers: Vec<Result<(), String>> = (0..16).into_par_iter().map(|_| check_new_vm()).collect();
     for w in &workers {
         ctx.add_evals(1);
@@ -685,6 +803,18 @@ pub fn replay(v: &Value) -> Result<String, String> {
                 }
             }
             Ok(rep)
+        }
+        "c19-fresh-process" => {
+            let probe = v["probe"].as_str().ok_or("no probe")?;
+            let _q = QuietStdout::new();
+            let r = long_history().and_then(|_| here_and_fresh_process(probe, 0));
+            drop(_q);
+            let (here, there) = r?;
+            if here == there {
+                Ok(format!("after the long history a fresh Preprocessor answers like a fresh process: {:.300}", here))
+            } else {
+                Err(format!("probe:\n{}\nafter the long history, here: {:.300}\nfresh process: {:.300}", probe, here, there))
+            }
         }
         "c19-hist" => {
             let c = HistCase { history: v["history"].as_array().map(|a| a.iter().map(|x| x.as_str().unwrap_or("").to_string()).collect()).unwrap_or_default(), probe: v["probe"].as_str().unwrap_or("").to_string(), regs: regs("regs") };
